@@ -97,6 +97,8 @@ Definition CFDivisor_set_fire (self_graph_graph : dictD) (self_degrees : dictZ) 
 
 (* chipfiring/CFDivisor.py :: CFDivisor.__init__   reads [], writes ['self_degrees', 'self_total_degree'], may raise *)
 Definition CFDivisor___init__ (set_order : list nat -> list nat) (graph_vertices : list nat) (graph_graph : dictD) (degrees : (list (nat * Z))) : pyres (dictZ * Z) (dictZ * Z) :=
+  let self_total_degree := 0 in
+  let self_degrees := (@nil (nat * Z)) in
   let self_degrees := (fold_left (fun d_ v => d_set v 0 d_) (set_order graph_vertices) []) in
   let self_total_degree := 0 in
   let vertex_names := (map (fun '(name, _) => name) degrees) in
